@@ -116,6 +116,8 @@ def work(job):
     # ---- prove
     s = z3.Solver()
     s.set("timeout", job.get("prove_ms", PROVE_MS))
+    if job.get("seed"):
+        s.set("random_seed", int(job["seed"]))
     for a in asserts:
         s.add(a)
     for nm, (c, real, _) in SPECIAL.items():
@@ -218,6 +220,102 @@ def cvc5_check(smt2, ms):
             pass
 
 
+class HardPool:
+    """N worker processes fed one job at a time.  z3's own timeout is not honoured inside some of its loops (seen: array
+    extensionality under model-based quantifier instantiation spinning for 30 minutes on an obligation that normally takes
+    milliseconds), so every job also has a wall-clock limit: a worker that overruns it is killed and replaced, and the job is
+    retried with another solver seed; a job that never returns is 'undecided' -- never a pass, never a violation."""
+
+    def __init__(self, n):
+        import multiprocessing as mp
+        self.mp = mp.get_context("fork")
+        self.n = max(1, n)
+        self.workers = []
+
+    @staticmethod
+    def _loop(conn):
+        while True:
+            try:
+                job = conn.recv()
+            except EOFError:
+                return
+            if job is None:
+                return
+            try:
+                r = work(job)
+            except Exception as ex:  # pragma: no cover
+                r = {"id": job["id"], "status": "error", "solver": None, "time_s": 0.0, "model": None, "detail": "worker: %r" % (ex,)}
+            conn.send(r)
+
+    def _spawn(self):
+        a, b = self.mp.Pipe()
+        p = self.mp.Process(target=HardPool._loop, args=(b,), daemon=True)
+        p.start()
+        b.close()
+        return {"proc": p, "conn": a, "job": None, "t0": 0.0}
+
+    def map(self, jobs, hard_s):
+        import multiprocessing.connection as mpc
+        jobs = list(jobs)
+        results = {}
+        pending = list(range(len(jobs)))[::-1]
+        tries = {}
+        while len(self.workers) < min(self.n, max(1, len(jobs))):
+            self.workers.append(self._spawn())
+        busy = 0
+        while pending or busy:
+            for w in self.workers:
+                if w["job"] is None and pending:
+                    i = pending.pop()
+                    j = dict(jobs[i])
+                    if tries.get(i):
+                        j["seed"] = tries[i]
+                    w["job"], w["t0"] = i, time.time()
+                    w["conn"].send(j)
+                    busy += 1
+            ready = mpc.wait([w["conn"] for w in self.workers if w["job"] is not None], timeout=1.0)
+            now = time.time()
+            for k, w in enumerate(self.workers):
+                if w["job"] is None:
+                    continue
+                i = w["job"]
+                if w["conn"] in ready:
+                    try:
+                        results[i] = w["conn"].recv()
+                    except (EOFError, OSError):
+                        results[i] = {"id": jobs[i]["id"], "status": "undecided", "solver": None, "time_s": round(now - w["t0"], 1),
+                                      "model": None, "detail": "solver process died"}
+                        w["proc"].kill()
+                        self.workers[k] = self._spawn()
+                        w = self.workers[k]
+                    w["job"] = None
+                    busy -= 1
+                elif now - w["t0"] > hard_s:
+                    w["proc"].kill()
+                    w["proc"].join(1)
+                    self.workers[k] = self._spawn()
+                    busy -= 1
+                    tries[i] = tries.get(i, 0) + 1
+                    if tries[i] <= 2:
+                        pending.append(i)       # retry with another seed
+                    else:
+                        results[i] = {"id": jobs[i]["id"], "status": "undecided", "solver": None, "time_s": round(now - w["t0"], 1),
+                                      "model": None, "detail": "solver did not return within the hard limit of %ds (3 seeds)" % hard_s}
+        return [results[i] for i in range(len(jobs))]
+
+    def shutdown(self):
+        for w in self.workers:
+            try:
+                w["conn"].send(None)
+            except Exception:
+                pass
+        for w in self.workers:
+            w["proc"].join(0.5)
+            if w["proc"].is_alive():
+                w["proc"].kill()
+        self.workers = []
+
+
 def discharge_all(obligs, scope=None, jobs=16, want_refute=True, second_solver=False, scopes=None):
     """obligs: list of interp.Obligation.  Returns list of result dicts (same order).
 
@@ -256,12 +354,14 @@ def discharge_all(obligs, scope=None, jobs=16, want_refute=True, second_solver=F
             results[i] = {"id": i, "status": "discharged", "solver": "simplifier", "time_s": 0.0, "model": None,
                           "detail": "trivial"}
     if todo:
-        ex = ProcessPoolExecutor(max_workers=jobs) if jobs > 1 else None
+        ex = HardPool(jobs) if jobs > 1 else None
+        hard_a = 3 * QUICK_MS / 1000.0 + 20
+        hard_b = (2 * PROVE_MS + REFUTE_MS * (1 + len((scope or {}).get("more", [])))) / 1000.0 + 60
         try:
             # ---- phase A
             a_jobs = [dict(j, mode="prove", prove_ms=QUICK_MS) for j in todo]
             if ex is not None:
-                ares = list(ex.map(work, a_jobs, chunksize=max(1, len(a_jobs) // (jobs * 8))))
+                ares = ex.map(a_jobs, hard_a)
             else:
                 ares = [work(j) for j in a_jobs]
             left = []
@@ -291,7 +391,7 @@ def discharge_all(obligs, scope=None, jobs=16, want_refute=True, second_solver=F
                 if not batch:
                     break
                 b_jobs = [dict(j, mode="full") for j in batch]
-                bres = list(ex.map(work, b_jobs)) if ex is not None else [work(j) for j in b_jobs]
+                bres = ex.map(b_jobs, hard_b) if ex is not None else [work(j) for j in b_jobs]
                 for j, r in zip(batch, bres):
                     results[j["id"]] = r
                     if r["status"] == "refuted":
